@@ -92,12 +92,14 @@ def build(name):
 def c19(tier):
     t0 = time.time()
     b = build("c19")
-    res = [run_space(b, "bfs", tier), run_space(b, "seq", tier)]
+    res = [run_space(b, "bfs", tier), run_space(b, "seq", tier), run_space(b, "wide", tier)]
     return finish("C19", tier, res,
-                  rule="bfs: one case per buffer (length 0..9 x 2 content families), explored to closure over reader positions with all 27 operations from every state; "
-                       "seq: every operation sequence of length 5 (quick) / 6 (thorough) without state merging, rooted at (buffer, first two ops). "
+                  rule="bfs: one case per buffer (length 0..9 x 2 content families, handed over with spare capacity filled with sentinels), explored to closure over (reference position, all fields of the real Reader) with all 27 operations from every state; "
+                       "seq: every operation sequence of length 5 (quick) / 6 (thorough) without state merging, rooted at (buffer, first two ops); "
+                       "wide: buffers of 255, 256, 257, 65535, 65536, 65537, 65600 octets x every operation sequence of length 3 (thorough 4) over the 5 fixed-width ops, len, count and read/peek with n in {0,1,2,127,128,254..257,32767,32768,65534..65537,L-1,L,L+1} (integer-width boundaries of positions, counts and arguments). "
                        "Non-trivial = buffer explored (bfs) / root whose subtree contains a sequence that consumed octets (seq); distinct by content hash.",
-                  assumptions=["reader.Reader has exactly the fields (data []byte, count int) - asserted by reflection at start-up",
+                  assumptions=["BFS states are merged on the reference position together with a by-value rendering of every field of reader.Reader (buffer contents excluded); a field that cannot be rendered by value switches the merge off (exhaustive:false, the unmerged spaces remain)",
+                               "whether returned octets are a view of the buffer or a copy is not part of the statement and not checked",
                                "negative length arguments are outside the statement ('a read of n octets')"], t0=t0)
 
 
@@ -110,12 +112,12 @@ FLOW_ASSUME = ["reference encoders/interpretation written from RFC 7011/7012 and
 def flow_records(pid, proto, tier):
     t0 = time.time()
     b = build("flow")
-    names = ["tpl2", "tpl3s", "pad8", "twosets", "allelems"]
+    names = ["tpl2", "tpl3s", "pad8", "twosets", "allelems", "loaded"]
     if tier == "thorough":
         names.append("tpl3")
     res = [run_space(b, proto + "." + n, tier) for n in names]
     return finish(pid, tier, res,
-                  rule="cases are generated from an abstract description: template of 1..3 field kinds over the kind alphabet (one element per abstract type x encoding class: natural, reduced-size, fixed string/octets, variable length with 1- and 3-octet prefixes, enterprise) x scope split 0..n x 1..3 records x padding 0..3 (pad8: 4..7) x 4 value patterns x template in an earlier / the same message; twosets: two templates and two data sets in either order; allelems: every model element as a one-field template in each encoding class. "
+                  rule="cases are generated from an abstract description: template of 1..3 field kinds over the kind alphabet (one element per abstract type x encoding class: natural, reduced-size, fixed string/octets, variable length with 1- and 3-octet prefixes, enterprise) x scope split 0..n x 1..3 records x padding 0..3 (pad8: 4..7) x 4 value patterns x template in an earlier / the same message; twosets: two templates and two data sets in either order; allelems: every model element as a one-field template in each encoding class; loaded: the same sweep after the model has been replaced through the real ipfix.LoadExtElements from a generated ipfix.elements file (every element, every fifth re-typed, plus the private ones) - decoding must follow the model in force. "
                        "Non-trivial = every executed case (each carries >=1 record); distinct = distinct wire octets (FNV-64 of the message and of the announcing messages).",
                   assumptions=FLOW_ASSUME, t0=t0)
 
@@ -178,10 +180,21 @@ def crash_check(pid, tier, alloc):
     assume = ["decode + JSON encoding is called exactly as the protocol's worker does (Decoder.Decode then JSONMarshal / json.Marshal); the worker loop itself is covered by C12/C13",
               "small-scope: datagrams up to a few hundred octets (one 65507-octet NetFlow v5 case); templates for two ids",
               "a panic is caught in-process; a fatal error, an out-of-memory kill (RLIMIT_AS 3 GiB) or 15 s without progress on a microsecond-scale case is re-run alone twice before it is reported"]
+    if not alloc:
+        # "never terminates the process" with the collector's own concurrency: fatal errors such as concurrent
+        # map writes exist only with two workers (the sequential sweeps above cannot see them)
+        d, env = sched_env("c01")
+        res.append(run_space(build("pipe"), "pipe.c01", tier, env=env, hang_s=240))
+        import shutil
+        shutil.rmtree(d, ignore_errors=True)
+        assume += PIPE_ASSUME
     if alloc:
         assume += ["allocation = runtime.MemStats.TotalAlloc delta around one decode+encode in a single-goroutine worker (exact: ReadMemStats flushes allocation caches); bound 64 KiB + 1024 B per received octet (largest legitimate case measured: 203 B/octet, 78 KB); a watchdog aborts a decode that exceeds 64x the bound",
                    "records <= octets is checked on every case"]
-    return finish(pid, tier, res, rule=CRASH_RULE, assumptions=assume, t0=t0)
+    rule = CRASH_RULE
+    if not alloc:
+        rule += " pipe.c01: per protocol the real receive loop and TWO workers under the controlled scheduler (deviation bound 1, thorough 2) on good, truncated and wrong-version datagrams of two exporters, cached templates used by both workers, an unknown template and an in-band announcement, templates loaded from a cache file: no panic, no fatal error, no race report (a data race on the template map is a process-terminating fatal error in Go)."
+    return finish(pid, tier, res, rule=rule, assumptions=assume, t0=t0)
 
 
 @check("C01")
@@ -223,7 +236,7 @@ def c18(tier):
     import shutil
     shutil.rmtree(d, ignore_errors=True)
     return finish("C18", tier, res,
-                  rule="every sample sequence of length 0..3 over {flow{raw}, flow{sw}, flow{}, counter{gen}, counter{vg,vlan,proc}, unknown3, unknown4, vendor} x 12 filter lists ([], [1], [2], [3], [1,2], [2,3], [1,3], [1,2,3], [0], [7], [vendor tag], [2^32-1]); oracle: reference tree without the listed types AND the implementation's own unfiltered decode with exactly the listed types removed. opts.filter: every comma list of length 1..3 over {0,1,2,3,2^32-1,2^32,-1,x,empty} through the real flag parser and the YAML list form through the real option loading. Non-trivial = every case.",
+                  rule="every sample sequence of length 0..3 over {flow{raw}, flow{sw}, flow{}, counter{gen}, counter{vg,vlan,proc}, unknown3, unknown4, vendor} x 18 filter lists (incl. numbers that are record formats inside samples: 1001, 1002, 4, 5) ([], [1], [2], [3], [1,2], [2,3], [1,3], [1,2,3], [0], [7], [vendor tag], [2^32-1]); oracle: reference tree without the listed types AND the implementation's own unfiltered decode with exactly the listed types removed. opts.filter: every comma list of length 1..3 over {0,1,2,3,2^32-1,2^32,-1,x,empty} through the real flag parser and the YAML list form through the real option loading. Non-trivial = every case.",
                   assumptions=SF_ASSUME, t0=t0)
 
 
@@ -344,7 +357,7 @@ def c11(tier):
     return finish("C11", tier, res,
                   rule="per protocol: roundtrip: 6 (thorough 40) cache contents reached by decoding announcements (0..240 templates; plain/options/enterprise/variable-length; IPv4-mapped, 4-byte and IPv6 exporters) dumped, loaded, every key probed with a well-formed data message and compared with the live cache, second generation identical; "
                        "crash: every image the observed write history of Dump can leave (old file, empty, EVERY byte prefix, prefixes zero-filled to 512/4096-octet boundaries and to full length, complete) - loaded cache must be a subset of the saved one and usable; "
-                       "bytes: every position x 12 substitution octets, every single-octet deletion and duplication; struct: 28 Cache shapes x 11 ShardNo forms x 2 key orders + absent/empty/directory/non-JSON files. Usable = announce+data succeeds for 96 probe exporters. Non-trivial = every case; distinct = file octets.",
+                       "bytes: every position x 13 substitution octets, every single-octet deletion and duplication; struct: 28 Cache shapes x 11 ShardNo forms x 2 key orders + absent/empty/directory/non-JSON files. Usable = announce+data succeeds for 96 probe exporters; after every crash image and every byte corruption the loaded entries are also USED: data for every exporter/template of the saved content is decoded (the decoder must cope with whatever the altered file made of them). Non-trivial = every case; distinct = file octets.",
                   assumptions=["write history of Dump: " + models["ipfix"]["source"],
                                "crash model: a crash leaves a byte prefix of an unsynced write, possibly with zero-filled blocks; no reordering across files",
                                "for byte/structure corruptions only 'never crashes' and 'usable' are demanded (a corrupted but valid document has no saved cache to be a subset of)",
@@ -561,6 +574,8 @@ def binary_config_runs():
         ("all three + cache file from the environment, stats port from the file", common + "ipfix-workers: 6\nstats-http-port: \"%d\"\n" % httpp[0],
          {"VFLOW_IPFIX_WORKERS": "5", "VFLOW_IPFIX_PORT": str(ports[7]), "VFLOW_IPFIX_TPL_CACHE_FILE": "ENVCACHE"}, ["-ipfix-workers", "3"], {"workers": 3, "ipfix_port": ports[7], "http": httpp[0], "cache": "ENVCACHE"}),
         ("protocol disabled in the file, enabled on the command line", common + "ipfix-enabled: false\nipfix-port: %d\n" % ports[8], {}, ["-ipfix-enabled=true"], {"workers": 200, "ipfix_port": ports[8]}),
+        ("file given as -config=FILE + command line", common + "ipfix-workers: 7\nipfix-port: %d\n" % ports[9], {}, ["-ipfix-workers", "9"], {"workers": 9, "ipfix_port": ports[9], "config_as": "-config=FILE"}),
+        ("file given as --config FILE, environment underneath", common + "ipfix-workers: 6\nipfix-port: %d\n" % ports[10], {"VFLOW_IPFIX_WORKERS": "5"}, [], {"workers": 6, "ipfix_port": ports[10], "config_as": "--config FILE"}),
     ]
     for name, cfg, env, args, want in runs:
         d = tempfile.mkdtemp(prefix="c17e2e_", dir=orch.BUILD)
@@ -573,7 +588,7 @@ def binary_config_runs():
             env.setdefault("VFLOW_IPFIX_TPL_CACHE_FILE", os.path.join(d, "i.cache"))
         col = None
         try:
-            col = e2e.Collector(binary, d, extra_args=args, env=env, config_text=cfg, minimal=True)
+            col = e2e.Collector(binary, d, extra_args=args, env=env, config_text=cfg, minimal=True, config_as=want.get("config_as", "-config FILE"))
             if "http" in want:
                 col.http = want["http"]
             if not col.wait_up():
